@@ -27,11 +27,22 @@ CLAIMED = {
              "of boundary values, checks type-table / symmetry / overflow laws on the specification and emits each case; "
              "the real result must be bit-identical or an error of the same class.",
         note=TRUST, tech="TLC enumeration of operator x operand pairs against an executable TLA+ semantics", ref="5 C03"),
+    "C04": dict(
+        text="MC_Ctx.tla is the abstract map model of HashMapContext (two slots, clone, type-safety rule, clears, separate "
+             "function namespace, builtin switch); TLC explores every reachable abstract state x every operation and checks "
+             "TypeStable / FailedCallAtomic / CloneIndependent / NamespacesSeparate as action properties; every transition is "
+             "replayed with a shortest history on real contexts, comparing every return value and the complete projection.",
+        note=TRUST, tech="TLC state-graph exploration of the context model + history replay", ref="5 C04"),
     "C05": dict(
         text="All token sequences over the sequence alphabets up to length 7/9 are parsed by the normative grammar "
              "(chain of tuples of optional elements) under TLC with the shape theorem as invariant; the real tree "
              "must equal the grammar's tree for every well-formed one.",
         note=TRUST, tech="TLC-enumerated token sequences + tree conformance", ref="5 C05"),
+    "C10": dict(
+        text="Builtins.tla is written from the README table; BuiltinAllowed gives the declarative outcome set (min/max = any "
+             "extreme argument, undocumented cases open) and TLC checks that the deterministic semantics lies inside it; "
+             "49 names x argument shapes of arity 0..4 over boundary pools are replayed bit-exactly.",
+        note=TRUST, tech="TLC enumeration of builtin x argument shapes against the TLA+ builtin table", ref="5 C10"),
     "C13": dict(
         text="The classifier of Grammar.tla marks a sequence IF exactly when it is not derivable; for every IF "
              "sequence up to the bound the real crate must fail to precompile or produce an arity-deficient tree that "
